@@ -83,6 +83,14 @@ func genHuge(r *Rand, n int, thorough bool, emit func(string)) {
 				step = -step
 			}
 		}
+		if step != 0 && r.Chance(1, 8) {
+			// the step is exactly the span (two frames), one more, or one less; either direction
+			k := step
+			if k < 0 {
+				k = -k
+			}
+			b = a + r.PickInt([]int{-1, 1})*(k+r.PickInt([]int{0, 0, 1, -1}))
+		}
 		mm := step
 		if mm < 0 {
 			mm = -mm
